@@ -8,6 +8,7 @@
 
 #define NTHREADS 16
 static pixman_image_t *shared, *shared_grad, *shared_clipped, *shared_acc;
+static uint32_t tile8[2 * TILE_STRIDE_WORDS], tile16[2 * TILE_STRIDE_WORDS];
 static pthread_barrier_t bar;
 static int rounds = 40;
 
@@ -15,7 +16,7 @@ static void *worker(void *v)
 {
     int tid = (int)(intptr_t)v;
     for (int r = 0; r < rounds; r++) {
-        tctx_t t; body_setup(&t, tid % 3, shared); t.shared_grad = shared_grad; t.shared_clipped = shared_clipped; t.shared_acc = shared_acc;
+        tctx_t t; body_setup(&t, tid % 3, shared); t.shared_grad = shared_grad; t.shared_clipped = shared_clipped; t.shared_acc = shared_acc; t.tile8 = tile8; t.tile16 = tile16; t.tile_ix = tid;
         pthread_barrier_wait(&bar);
         for (int k = 0; k < N_BODY_OPS; k++) body_run(&t, (k + tid + r) % N_BODY_OPS);
         body_teardown(&t);
